@@ -172,6 +172,49 @@ not_covered = ("Context::SetValue/SetValues/GetValue/HasKey (linked list of shar
 DRIVER = ("c10_native", ["c10_native.cc"])
 
 
+# Token::~Token -> RuntimeContext::Detach(*this) -> GetRuntimeContextStorage()->Detach(token): releasing a token (and with it a Scope, which only owns a
+# token) detaches exactly this token, once, on the registered storage. The storage object is a boundary: its Detach is a ghost-recorded call
+def _configure_tok(cfg):
+    common.context_boundary(cfg)
+    cfg.ext_q["RuntimeContext::GetRuntimeContextStorage"] = lambda em, node, recv, args: "g_storage"
+    cfg.ext_q["RuntimeContextStorage::Detach"] = lambda em, node, recv, args: "xc_storage_Detach(%s)" % em.addr_of(args[0])
+    cfg.ext_q["RuntimeContextStorage::Attach"] = lambda em, node, recv, args: "xc_storage_Attach(%s)" % em.expr(args[0])
+    cfg.ext_q["RuntimeContextStorage::GetCurrent"] = lambda em, node, recv, args: "xc_storage_GetCurrent()"
+
+
+TOK_POST = post_struct_c + r"""
+int g_storage; unsigned g_detach_calls; const Token *g_detach_tok; _Bool g_detach_ret;
+static _Bool xc_storage_Detach(Token *t) { g_detach_calls++; g_detach_tok = t; return g_detach_ret; }
+unsigned g_attach_calls; unsigned long g_attach_ctx; Token *g_attach_ret; Context g_current;
+static Token *xc_storage_Attach(Context c) { g_attach_calls++; g_attach_ctx = ID(c); return g_attach_ret; }
+static Context xc_storage_GetCurrent(void) { return g_current; }
+"""
+_tok_contracts = {
+    "RuntimeContext_Detach": {"pre": "__CPROVER_requires(__CPROVER_is_fresh(token, sizeof(*token)) && g_detach_calls == 0)\n__CPROVER_assigns(g_detach_calls, g_detach_tok)\n"
+        "__CPROVER_ensures(g_detach_calls == 1 && g_detach_tok == token)\n"
+        "__CPROVER_ensures(!__CPROVER_return_value == !g_detach_ret)\n"},
+    "RuntimeContext_Attach": {"pre": "__CPROVER_requires(g_attach_calls == 0)\n__CPROVER_assigns(g_attach_calls, g_attach_ctx)\n"
+        "__CPROVER_ensures(g_attach_calls == 1 && g_attach_ctx == ID(context) && __CPROVER_return_value == g_attach_ret)\n"},
+    "RuntimeContext_GetCurrent": {"pre": "__CPROVER_assigns()\n__CPROVER_ensures(ID(__CPROVER_return_value) == ID(g_current))\n"},
+    "Token_dtor": {"pre": "__CPROVER_requires(__CPROVER_is_fresh(self, sizeof(*self)) && g_detach_calls == 0)\n__CPROVER_assigns(g_detach_calls, g_detach_tok)\n"
+        "__CPROVER_ensures(g_detach_calls == 1 && g_detach_tok == self)\n"},
+}
+proofs_tok = [
+    Proof("RuntimeContext_Attach", [("RuntimeContext::Attach", 1)], enforce="RuntimeContext_Attach", configure=_configure_tok, contracts=_tok_contracts,
+          desc="RuntimeContext::Attach hands exactly the caller's context to the registered storage, once, and returns the storage's token"),
+    Proof("RuntimeContext_GetCurrent", [("RuntimeContext::GetCurrent", 0)], enforce="RuntimeContext_GetCurrent", configure=_configure_tok, contracts=_tok_contracts,
+          desc="RuntimeContext::GetCurrent returns the registered storage's current context"),
+    Proof("RuntimeContext_Detach", [("RuntimeContext::Detach", 1)], enforce="RuntimeContext_Detach", configure=_configure_tok, contracts=_tok_contracts,
+          desc="RuntimeContext::Detach hands exactly the caller's token to the registered storage, once, and returns its answer"),
+    Proof("Token_dtor", [("Token::~Token", 0)], enforce="Token_dtor", replace=["RuntimeContext_Detach"], configure=_configure_tok, contracts=_tok_contracts,
+          desc="destroying a token (what releasing a Scope does) detaches exactly this token, once"),
+]
+for _p in proofs_tok:
+    _p.post_struct_c = TOK_POST
+    _p.own_config = True
+proofs += proofs_tok
+
+
 def refute_search(mod, proof, violations, ix, workdir, seed):
     """directed native search on the real RuntimeContext: every Attach sequence over three contexts up to length 5, every token detached"""
     import os, re as _re, subprocess
@@ -187,6 +230,20 @@ def refute_search(mod, proof, violations, ix, workdir, seed):
 
 
 refuters = {p.name: refute_search for p in proofs}
+
+
+def refute_tok(mod, proof, violations, ix, workdir, seed):
+    """native replay on the real Token / RuntimeContext with a recording storage registered: release the token of the empty and of a non-empty context"""
+    for which in ("e", "n"):
+        r = R.native_check(DRIVER[0], DRIVER[1], ["tok", which], ["-O1"])
+        if r["reproduced"]:
+            r["input"] = {"driver_args": ["tok", which], "meaning": "tok e|n: Attach the empty (e) / a non-empty (n) context on a recording storage, destroy the token, count Detach calls", "found_by": "directed native replay (refute mode)"}
+            return r
+    return None
+
+
+for _p in proofs_tok:
+    refuters[_p.name] = refute_tok
 
 
 # ---------------------------------------------------------------------------------------------
